@@ -375,3 +375,101 @@ func init() {
 		Stubs:  stubErrors,
 	})
 }
+
+// band sizes by name index (standard uplink channels) and whether extra channels are supported
+var bandNStd = []int{3, 72, 3, 3, 72, 96, 2, 2, 2, 2, 3, 3, 2, 3}
+var bandExtra = []bool{true, false, true, true, false, false, true, true, true, true, true, true, true, true}
+
+func init() {
+	register(&PropSpec{
+		ID:   "C15",
+		Pkgs: []string{"band"},
+		Items: func(tier string, seed int64) []Item {
+			var it []Item
+			for n := 0; n < 14; n++ {
+				ks := []int{0, 2}
+				if tier == "thorough" {
+					ks = []int{0, 1, 2, 3}
+				}
+				if !bandExtra[n] {
+					ks = []int{0}
+				}
+				for _, k := range ks {
+					wins := []int{-1}
+					if bandNStd[n] > 8 {
+						wins = []int{0, 14, 62, bandNStd[n] - 4}
+					}
+					for _, win := range wins {
+						for pat := 0; pat <= 2; pat++ {
+							if win < 0 && pat > 0 {
+								continue
+							}
+							it = append(it, Item{PkgKey: "band", Func: "VerifC15_Sets", Shape: []int{n, 0, 0, k, win, pat}})
+							for ver := 0; ver < 7; ver++ {
+								if tier != "thorough" && ver != 2 && ver != 3 && ver != 6 {
+									continue
+								}
+								it = append(it, Item{PkgKey: "band", Func: "VerifC15_CFList", Shape: []int{n, 0, 0, k, ver, win, pat}})
+							}
+						}
+					}
+					for op := 0; op <= 2; op++ {
+						it = append(it, Item{PkgKey: "band", Func: "VerifC15_Step", Shape: []int{n, 0, 0, k, op}})
+					}
+					it = append(it, Item{PkgKey: "band", Func: "VerifC15_Lookup", Shape: []int{n, 0, 0, k}})
+				}
+				for rep := 0; rep <= 1; rep++ {
+					for dt := 0; dt <= 1; dt++ {
+						it = append(it, Item{PkgKey: "band", Func: "VerifC15_MACEncodable", Shape: []int{n, rep, dt}})
+					}
+				}
+			}
+			return it
+		},
+		Bounds: func(tier string) map[string]string { return map[string]string{} },
+		Stubs:  stubErrors,
+	})
+}
+
+func init() {
+	register(&PropSpec{
+		ID:        "C14",
+		MaxVisits: 30000,
+		Pkgs:      []string{"band"},
+		Items: func(tier string, seed int64) []Item {
+			var it []Item
+			for n := 0; n < 14; n++ {
+				if bandNStd[n] <= 8 {
+					ks := []int{0, 2}
+					if tier == "thorough" {
+						ks = []int{0, 1, 2, 3, 4}
+					}
+					for _, k := range ks {
+						for order := 0; order <= 1; order++ {
+							it = append(it, Item{PkgKey: "band", Func: "VerifC14_Plan", Shape: []int{n, k, -1, 0, 0, order}})
+						}
+					}
+					continue
+				}
+				// 72 / 96 channel plans: 4 symbolic channels at a time, the others by pattern (network x device)
+				wins := []int{0, 14, 62, bandNStd[n] - 4}
+				if tier == "thorough" {
+					wins = []int{0, 6, 14, 30, 46, 60, 62, 66, bandNStd[n] - 4}
+				}
+				for _, win := range wins {
+					for pat := 0; pat <= 2; pat++ {
+						for devPat := 0; devPat <= 2; devPat++ {
+							if tier != "thorough" && (pat+devPat)%2 == 1 {
+								continue
+							}
+							it = append(it, Item{PkgKey: "band", Func: "VerifC14_Plan", Shape: []int{n, 0, win, pat, devPat, 0}})
+						}
+					}
+				}
+			}
+			return it
+		},
+		Bounds: func(tier string) map[string]string { return map[string]string{} },
+		Stubs:  stubErrors,
+	})
+}
